@@ -432,6 +432,7 @@ func streamRobust() {
 		}
 		return o
 	}
+	noRetry = true
 	parallel(len(cases), func(i int) { results[i] = runOne(i, robustTimeout) })
 	for i := range cases {
 		if results[i].res.timedOut { // alone, with a generous limit, before calling it a hang
